@@ -13,6 +13,12 @@ CLAIMS = {
    "Tie: trace acceptance - histories run on the real evaluator (serial with a conductor forcing completion order incl. several completions per wake-up and queued jobs; "
    "thread/process/loky) are replayed by the extracted Coq oracle `replay`; an accepted history is provably a run of the model (C01_accepted_history_is_run).",
    note="asyncio wait/cancel semantics and executor backends are observed, not modelled (a finished task is never lost; cancel of a finished task is a no-op). Run-functions that raise are outside the property."),
+ "C14": dict(cat="proof", text="Coq theorems about the per-job status machine of execute()/_on_done/close (every sequence of status writes, run-function polls and returns the code can produce, any position of the deadline): "
+   "statuses only move forward along READY->RUNNING->(DONE | CANCELLING->CANCELLED) (READY/RUNNING->CANCELLED at close), a terminal status is final, a running job always sees the status written last (so CANCELLING from its write until the job returns), "
+   "a job told to cancel is never reported DONE, DONE / CANCELLED-after-CANCELLING are only written after the run-function returned (value kept); the enum codes are tied to the source by a regenerated fact (C14_status_codes). "
+   "Tie: real searches with a timeout (serial, thread) under a logging storage and logging run-functions; the extracted oracle ok_C14 (soundness theorem C14_oracle_sound) replays every job's events on the machine and checks the results table "
+   "(one row per job, terminal status = last write, value kept, jobs running across the deadline told to cancel and reported CANCELLED, no activity after search() returned). PARTIAL: real time is not modelled.",
+   note="the deadline instant is represented by a harness sentinel 1.5 s after it; wait_for/shield/thread pools are trusted; process/loky backends are not exercised by this harness."),
  "C17": dict(cat="proof", text="Coq theorems for EVERY schedule of the mechanism model of the (repaired) queued evaluator, any queue / pop count / jobs / workers: "
    "conservation (queue + resources in jobs' hands is always a permutation of the initial queue), disjointness of concurrently held resources, exactly pop resources per job, "
    "no deadlock and liveness (some schedule finishes every job) when pop <= |queue|; the pinned shared-slot design is refuted by witnesses (shared resource, underflow = F17). "
